@@ -75,6 +75,12 @@ theorem sliceCould_eq (a : Int) (b : Option Int) (st : Int) (n j : Nat) (hj : j 
       by_cases h2 : a ≤ (j : Int) <;> by_cases h3 : m = 0 <;> by_cases h4 : (j : Int) < e <;>
         simp [h2, h3, h4, hmin]
 
+/-- `[:]` selects every index -/
+theorem sliceSel_full (n j : Nat) (hj : j < n) : sliceSel 0 none 1 n j = true := by
+  have h2 : (j : Int) < (n : Int) := by omega
+  simp [sliceSel, h2]
+  omega
+
 theorem child_idx {v c : JV} {j : Nat} (h : child? v (.idx j) = some c) :
     ∃ xs, v = .arr xs ∧ j < xs.length := by
   cases v <;> simp [child?] at h
@@ -143,20 +149,27 @@ theorem segMatch_eq_fragSel (dv : Dev) (f : Frag) (hf : fragOK dv f = true) (hd 
         · have : ¬ (j : Int) = i := fun e => h e.symm
           simp [h, this]
   | slice a b st =>
-    simp only [fragOK, Bool.and_eq_true, Bool.not_eq_true', decide_eq_true_eq] at hf
-    obtain ⟨⟨⟨hs, ha⟩, hst⟩, hb⟩ := hf
     cases s with
     | key k =>
       obtain ⟨kvs, rfl⟩ := child_key hc
       simp [segMatch, fragSel]
     | idx j =>
       obtain ⟨xs, rfl, hj⟩ := child_idx hc
-      simp only [segMatch, fragSel, hs]
-      have := sliceCould_eq a b st xs.length j hj ha hst (by
-        intro e he
-        subst he
-        simpa using hb)
-      simpa using this
+      by_cases hs : dv.sliceAll = true
+      · simp only [fragOK, hs, if_true, Bool.and_eq_true, decide_eq_true_eq, Option.isNone_iff_eq_none] at hf
+        obtain ⟨⟨ha, hb⟩, hst⟩ := hf
+        subst ha hb hst
+        simp only [segMatch, fragSel, hs, if_true]
+        exact (sliceSel_full xs.length j hj).symm
+      · have hs' : dv.sliceAll = false := by simpa using hs
+        simp only [fragOK, hs', Bool.false_eq_true, if_false, Bool.and_eq_true, decide_eq_true_eq] at hf
+        obtain ⟨⟨ha, hst⟩, hb⟩ := hf
+        simp only [segMatch, fragSel, hs']
+        have := sliceCould_eq a b st xs.length j hj ha hst (by
+          intro e he
+          subst he
+          simpa using hb)
+        simpa using this
   | descent => simp [isDescent] at hd
   | filter p => simp [fragOK] at hf
 
@@ -283,19 +296,28 @@ theorem splitTarget_ok (dv : Dev) : ∀ (t : Target), okTarget dv t = true → s
     cases f <;> simp [splitTarget, ih]
     simp [fragOK] at h
 
-theorem pathMatchAny_ok (dv : Dev) (targets : List Target) (h : ∀ t ∈ targets, okTarget dv t = true)
+/-- a target without a filter is not split -/
+theorem splitTarget_nf : ∀ (t : Target), t.any isFilterFrag = false → splitTarget t = ⟨t, none⟩
+  | [], _ => rfl
+  | f :: fs, h => by
+    simp only [List.any_cons, Bool.or_eq_false_iff] at h
+    have ih := splitTarget_nf fs h.2
+    cases f <;> simp [splitTarget, ih]
+    simp [isFilterFrag] at h
+
+theorem pathMatchAny_nf (dv : Dev) (targets : List Target) (h : ∀ t ∈ targets, splitTarget t = ⟨t, none⟩)
     (p : NPath) (leaf : Bool) :
     pathMatchAny dv (targets.map splitTarget) p leaf = targets.any fun t => pathMatch dv t p := by
   induction targets with
   | nil => simp [pathMatchAny]
   | cons t r ih =>
-    have ht := splitTarget_ok dv t (h t (by simp))
+    have ht := h t (by simp)
     have := ih (fun t' ht' => h t' (by simp [ht']))
     simp only [pathMatchAny, List.map_cons, List.any_cons, ht] at this ⊢
     rw [this]
     simp
 
-theorem checkRest_ok (dv : Dev) (targets : List Target) (h : ∀ t ∈ targets, okTarget dv t = true)
+theorem checkRest_nf (dv : Dev) (targets : List Target) (h : ∀ t ∈ targets, splitTarget t = ⟨t, none⟩)
     (p : NPath) (v : JV) : checkRest dv (targets.map splitTarget) p v = [(p, v)] := by
   unfold checkRest
   cases hfind : (targets.map splitTarget).find? fun tr => pathMatch dv tr.target p with
@@ -304,7 +326,16 @@ theorem checkRest_ok (dv : Dev) (targets : List Target) (h : ∀ t ∈ targets, 
     have hmem := List.mem_of_find?_eq_some hfind
     simp only [List.mem_map] at hmem
     obtain ⟨t, ht, rfl⟩ := hmem
-    simp [splitTarget_ok dv t (h t ht)]
+    simp [h t ht]
+
+theorem pathMatchAny_ok (dv : Dev) (targets : List Target) (h : ∀ t ∈ targets, okTarget dv t = true)
+    (p : NPath) (leaf : Bool) :
+    pathMatchAny dv (targets.map splitTarget) p leaf = targets.any fun t => pathMatch dv t p :=
+  pathMatchAny_nf dv targets (fun t ht => splitTarget_ok dv t (h t ht)) p leaf
+
+theorem checkRest_ok (dv : Dev) (targets : List Target) (h : ∀ t ∈ targets, okTarget dv t = true)
+    (p : NPath) (v : JV) : checkRest dv (targets.map splitTarget) p v = [(p, v)] :=
+  checkRest_nf dv targets (fun t ht => splitTarget_ok dv t (h t ht)) p v
 
 mutual
   theorem locs_prefix : ∀ (v : JV) (p : NPath) (qu : NPath × JV), qu ∈ locs p v → ∃ r, qu.1 = p ++ r
